@@ -166,6 +166,13 @@ def extra_lines(rng, tier):
         elif x < 0.6:
             threads[1] += ";" + upd()
         out.append("w%d|100|%s|%s|%s%d|drain,mode=O" % (i, ";".join(setup), "#".join(threads), rng.choice("rp"), rng.randint(1, 10 ** 9)))
+    # readers that take a SNAPSHOT (three counter loads + an iteration) while writers are at work.  Model/Conc.v has no
+    # snapshot call, so these programs are judged only (flag `nomodel`): a read must not disturb the conservation.
+    for i in range(200 if tier == "quick" else 4000):
+        g = conc.ProgGen(rng, n_threads=rng.choice([2, 3]), reads=False, nexts=False)
+        setup, threads = g.program()
+        threads[-1] = ["SNAP"] * rng.choice([1, 1, 2])
+        out.append(conc.prog_line("s%d" % i, g.price, setup, threads, "%s%d" % (rng.choice("rp"), rng.randint(1, 10 ** 9)), "drain,mode=O,nomodel"))
     return out
 
 
